@@ -1,0 +1,109 @@
+//go:build verif
+
+// Machine-checked contracts for package logic (comment-only; read by /verif/gocv).
+
+package logic
+
+// Representation invariant of a catch-event satisfier (parallel-multiple bookkeeping):
+//  - every chain is a distinct bit set of length len, none is full, and (if any chain exists) some
+//    definition's bit is present in every chain.
+//@ spec func cesShape(s *CatchEventSatisfier) bool =
+//@   s.len == len(s.eventDefinitionInstances) &&
+//@   (forall a int :: off(s.chains) <= a && a < off(s.chains) + len(s.chains) ==> 0 < at(s.chains, a) && at(s.chains, a) <= alloc && at(s.chains, a).n == s.len)
+//@ spec func cesDistinct(s *CatchEventSatisfier) bool =
+//@   forall a int, b int :: off(s.chains) <= a && a < b && b < off(s.chains) + len(s.chains) ==> at(s.chains, a) != at(s.chains, b)
+//@ spec func cesNoneFull(s *CatchEventSatisfier) bool =
+//@   forall a int :: off(s.chains) <= a && a < off(s.chains) + len(s.chains) ==>
+//@      exists k int :: 0 <= k && k < s.len && !at(s.chains, a).bits[k]
+//@ spec func cesCommonBit(s *CatchEventSatisfier) bool =
+//@   len(s.chains) > 0 ==> exists k int :: 0 <= k && k < s.len &&
+//@      forall a int :: off(s.chains) <= a && a < off(s.chains) + len(s.chains) ==> at(s.chains, a).bits[k]
+
+//@ func (*CatchEventSatisfier).Satisfy
+//@   prop C14
+//@   flag paths
+//@   requires cesShape(satisfier)
+//@   requires cesDistinct(satisfier)
+//@   requires cesNoneFull(satisfier)
+//@   requires cesCommonBit(satisfier)
+//@   ensures [shape-kept] cesShape(satisfier)
+//@   ensures [chains-stay-distinct] cesDistinct(satisfier)
+//@   ensures [no-chain-is-left-full] cesNoneFull(satisfier)
+//@   ensures [some-bit-in-every-chain] cesCommonBit(satisfier)
+//@   ensures [chain-index-usable-by-mirrors] matched ==> 0 <= chain && (chain < old(len(satisfier.chains)) || chain == 0)
+//@   ensures [chain-index-on-progress] chain != -1 ==> 0 <= chain
+//@   ensures [no-definition-matches-changes-nothing] (forall i int :: 0 <= i && i < len(satisfier.eventDefinitionInstances) ==>
+//@             !ev.MatchesEventInstance(satisfier.eventDefinitionInstances[i])) ==>
+//@             !matched && chain == -1 && satisfier.chains == old(satisfier.chains) && unchanged()
+//@   ensures [single-or-non-parallel-fires-on-any-match] (!satisfier.ParallelMultiple() || satisfier.len == 1) ==>
+//@             (matched <==> exists i int :: 0 <= i && i < len(satisfier.eventDefinitionInstances) && ev.MatchesEventInstance(satisfier.eventDefinitionInstances[i])) &&
+//@             satisfier.chains == old(satisfier.chains) && unchanged()
+//@   ensures [parallel-fires-only-when-a-chain-completes] matched && satisfier.ParallelMultiple() && satisfier.len != 1 ==>
+//@             len(satisfier.chains) == old(len(satisfier.chains)) - 1
+//@   ensures [parallel-progress-without-firing-keeps-or-adds-a-chain] !matched && chain != -1 ==>
+//@             len(satisfier.chains) == old(len(satisfier.chains)) || len(satisfier.chains) == old(len(satisfier.chains)) + 1
+//@   loop 1 range satisfier.eventDefinitionInstances
+//@     invariant forall k int :: 0 <= k && k < i ==> !ev.MatchesEventInstance(satisfier.eventDefinitionInstances[k])
+//@     invariant !matched && chain == -1 && satisfier.chains == old(satisfier.chains) && unchanged()
+//@   loop 2 range satisfier.chains
+//@     invariant forall b int :: off(satisfier.chains) <= b && b < off(satisfier.chains) + j ==> at(satisfier.chains, b).bits[i]
+//@     invariant !matched && chain == -1 && satisfier.chains == old(satisfier.chains) && unchanged()
+
+// The constructor establishes the invariant: no chains, len is the number of definitions.
+//@ func NewCatchEventSatisfier
+//@   prop C14
+//@   ensures [constructor-establishes-the-invariant] result != nil && cesShape(result) && len(result.chains) == 0
+//@   loop 1 range catchEventElement.EventDefinitions()
+//@     invariant satisfier != nil && fresh(satisfier) && len(satisfier.chains) == 0 && satisfier.len == len(satisfier.eventDefinitionInstances)
+
+// Representation invariant of a throw-event satisfier (the same algorithm, always parallel) (parallel-multiple bookkeeping):
+//  - every chain is a distinct bit set of length len, none is full, and (if any chain exists) some
+//    definition's bit is present in every chain.
+//@ spec func tesShape(s *ThrowEventSatisfier) bool =
+//@   s.len == len(s.eventDefinitionInstances) &&
+//@   (forall a int :: off(s.chains) <= a && a < off(s.chains) + len(s.chains) ==> 0 < at(s.chains, a) && at(s.chains, a) <= alloc && at(s.chains, a).n == s.len)
+//@ spec func tesDistinct(s *ThrowEventSatisfier) bool =
+//@   forall a int, b int :: off(s.chains) <= a && a < b && b < off(s.chains) + len(s.chains) ==> at(s.chains, a) != at(s.chains, b)
+//@ spec func tesNoneFull(s *ThrowEventSatisfier) bool =
+//@   forall a int :: off(s.chains) <= a && a < off(s.chains) + len(s.chains) ==>
+//@      exists k int :: 0 <= k && k < s.len && !at(s.chains, a).bits[k]
+//@ spec func tesCommonBit(s *ThrowEventSatisfier) bool =
+//@   len(s.chains) > 0 ==> exists k int :: 0 <= k && k < s.len &&
+//@      forall a int :: off(s.chains) <= a && a < off(s.chains) + len(s.chains) ==> at(s.chains, a).bits[k]
+
+//@ func (*ThrowEventSatisfier).Satisfy
+//@   prop C14
+//@   flag paths
+//@   requires tesShape(satisfier)
+//@   requires tesDistinct(satisfier)
+//@   requires tesNoneFull(satisfier)
+//@   requires tesCommonBit(satisfier)
+//@   ensures [shape-kept] tesShape(satisfier)
+//@   ensures [chains-stay-distinct] tesDistinct(satisfier)
+//@   ensures [no-chain-is-left-full] tesNoneFull(satisfier)
+//@   ensures [some-bit-in-every-chain] tesCommonBit(satisfier)
+//@   ensures [chain-index-usable-by-mirrors] matched ==> 0 <= chain && (chain < old(len(satisfier.chains)) || chain == 0)
+//@   ensures [chain-index-on-progress] chain != -1 ==> 0 <= chain
+//@   ensures [no-definition-matches-changes-nothing] (forall i int :: 0 <= i && i < len(satisfier.eventDefinitionInstances) ==>
+//@             !ev.MatchesEventInstance(satisfier.eventDefinitionInstances[i])) ==>
+//@             !matched && chain == -1 && satisfier.chains == old(satisfier.chains) && unchanged()
+//@   ensures [single-definition-fires-on-any-match] satisfier.len == 1 ==>
+//@             (matched <==> exists i int :: 0 <= i && i < len(satisfier.eventDefinitionInstances) && ev.MatchesEventInstance(satisfier.eventDefinitionInstances[i])) &&
+//@             satisfier.chains == old(satisfier.chains) && unchanged()
+//@   ensures [parallel-fires-only-when-a-chain-completes] matched && satisfier.len != 1 ==>
+//@             len(satisfier.chains) == old(len(satisfier.chains)) - 1
+//@   ensures [parallel-progress-without-firing-keeps-or-adds-a-chain] !matched && chain != -1 ==>
+//@             len(satisfier.chains) == old(len(satisfier.chains)) || len(satisfier.chains) == old(len(satisfier.chains)) + 1
+//@   loop 1 range satisfier.eventDefinitionInstances
+//@     invariant forall k int :: 0 <= k && k < i ==> !ev.MatchesEventInstance(satisfier.eventDefinitionInstances[k])
+//@     invariant !matched && chain == -1 && satisfier.chains == old(satisfier.chains) && unchanged()
+//@   loop 2 range satisfier.chains
+//@     invariant forall b int :: off(satisfier.chains) <= b && b < off(satisfier.chains) + j ==> at(satisfier.chains, b).bits[i]
+//@     invariant !matched && chain == -1 && satisfier.chains == old(satisfier.chains) && unchanged()
+
+// The constructor establishes the invariant: no chains, len is the number of definitions.
+//@ func NewThrowEventSatisfier
+//@   prop C14
+//@   ensures [constructor-establishes-the-invariant] result != nil && tesShape(result) && len(result.chains) == 0
+//@   loop 1 range catchEventElement.EventDefinitions()
+//@     invariant satisfier != nil && fresh(satisfier) && len(satisfier.chains) == 0 && satisfier.len == len(satisfier.eventDefinitionInstances)
